@@ -41,6 +41,7 @@ SELFTEST = [
     {"mutation": "handle_graft: `backoff_time > now` -> `backoff_time < now`", "caught_by": "graft/backed-off GRAFT never reaches the mesh insertion"},
     {"mutation": "new fn BackoffStorage::clear_topic(&mut self, t) { self.backoffs.remove(t); } ", "caught_by": "who/mutable borrows of `backoffs` + who/overwrite- or removal-capable calls are the classified sites"},
     {"mutation": "BackoffStorage::heartbeat: cursor += 2", "caught_by": "cursor/advances one slot modulo ring length"},
+    {"mutation": "NEUTRAL: all locals/params/upvars of BackoffStorage::{heartbeat closure, is_backoff_with_slack} renamed (keep, m, backoffs, now, topic, peer)", "caught_by": "(silent: verdict local, entry, upvars and params are identified by role/type)"},
 ]
 
 # one-edit source variants for the thorough-tier sensitivity self-test (vrules/selftest.py); each must be reported
@@ -64,16 +65,24 @@ MUTANTS = [
 ]
 
 
-def _derived_from_backoffs(body, e, up=None):
-    """expression (after expanding named locals) reads the `backoffs` field / upvar"""
+MAP_TY = r"HashMap<topic::TopicHash, std::collections::HashMap<libp2p_identity::PeerId, \(web_time::Instant, backoff::HeartbeatIndex\)>>"
+
+
+def _derived_from_backoffs(prog, body, e, depth=0):
+    """expression (after expanding named locals) reads the `backoffs` map: the field itself, a parameter of the map's type, or a
+    closure upvar bound to either (names are not consulted)"""
     x = gs.expand(body, e)
     for s in mir.walk(x):
-        if s[0] == "field" and s[2] == "backoffs":
+        if s[0] == "field" and s[2] == "backoffs" and "BackoffStorage" in (s[3] or "BackoffStorage"):
             return True
-        if s[0] == "upvar" and s[1].lstrip("*") == "backoffs":
+        if s[0] == "arg" and re.search(MAP_TY, body.locals[s[1]]):
             return True
-        if s[0] in ("arg", "local") and (s[2] or "") == "backoffs":
-            return True
+        if s[0] == "upvar" and body.parent and depth < 3:
+            par = [b for b in prog.bodies(body.crate) if b.path == body.parent]
+            if par:
+                u = gs.upvar_exprs(prog, par[0], body).get(s[1].lstrip("*"))
+                if u is not None and _derived_from_backoffs(prog, par[0], u, depth + 1):
+                    return True
     return False
 
 
@@ -81,7 +90,14 @@ def check(ctx):
     prog = ctx.prog
     u = ctx.body(G, BS + r"update_backoff$")
     hb = ctx.body(G, BS + r"heartbeat$")
-    hc = ctx.body(G, BS + r"heartbeat::\{closure#0\}$")
+    # the expiry closure is the one handed to the slot's retain (not looked up by closure number)
+    _ret = hb.call_sites(r"HashSet::retain$")
+    hc = gs.closure_arg(prog, hb, hb.site_expr(_ret[0])) if _ret else None
+    if hc is None:
+        raise mir.RuleError("BackoffStorage::heartbeat: no HashSet::retain(closure) over the slot")
+    ctx.use(hc)
+    a_topic, a_peer = gs.arg_of_type(u, r"^&topic::TopicHash$"), gs.arg_of_type(u, r"^&libp2p_identity::PeerId$")
+    n_topic, n_peer = re.escape(gs.argname(u, a_topic)), re.escape(gs.argname(u, a_peer))
     mod_bodies = [b for b in prog.bodies(G) if b.npath.startswith("libp2p_gossipsub::backoff::")]
 
     # ------------------------------------------------------------------ (1) update_backoff
@@ -139,7 +155,7 @@ def check(ctx):
     for bi, _ in (vac + occ)[:1]:
         c = render(u.switch_info(bi)[0])
         ctx.ob("update", "entry is backoffs.entry(topic).or_default().entry(peer)",
-               re.search(r"HashMap::entry\(std::collections::hash_map::Entry::or_default\(std::collections::HashMap::entry\(self\.backoffs, .*clone\(topic\)\)\), peer\)", c) is not None,
+               re.search(r"HashMap::entry\(std::collections::hash_map::Entry::or_default\(std::collections::HashMap::entry\(self\.backoffs, .*clone\(%s\)\)\), %s\)" % (n_topic, n_peer), c) is not None,
                "%s:%d" % (u.file, u.blocks[bi]["term"].get("l", 0)), c[:220])
 
     # ------------------------------------------------------------------ (2) who may mutate `backoffs`
@@ -173,7 +189,7 @@ def check(ctx):
             if not DANGER.search(name):
                 continue
             e = b.site_expr(s)
-            if any(_derived_from_backoffs(b, a) for a in e[2]):
+            if any(_derived_from_backoffs(prog, b, a) for a in e[2]):
                 danger.append(s)
     ctx.floor("who", "overwrite-/removal-capable calls on backoffs data", danger, 5)
     extra = [s for s in danger if s.key() not in classified]
@@ -191,8 +207,14 @@ def check(ctx):
     ctx.floor("expiry", "per-peer removal", h_rm_peer, 1)
     ctx.floor("expiry", "topic-map removal", h_rm_map, 1)
     ups = gs.upvar_exprs(prog, hb, hc)
-    ctx.ob("expiry", "closure captures &mut self.backoffs and Instant::now()", render(ups.get("backoffs", ("unknown", "?"))) == "self.backoffs"
-           and render(ups.get("now", ("unknown", "?"))).endswith("Instant::now()"), "%s:%d" % (hc.file, hc.line), str({k: render(v)[:60] for k, v in ups.items()}))
+    up_bk = [k for k, v in ups.items() if gs.xrender(hb, v) == "self.backoffs"]
+    up_now = [k for k, v in ups.items() if gs.xrender(hb, v).endswith("Instant::now()")]
+    ctx.ob("expiry", "closure captures &mut self.backoffs and Instant::now()", len(up_bk) == 1 and len(up_now) == 1, "%s:%d" % (hc.file, hc.line), str({k: render(v)[:60] for k, v in ups.items()}))
+    UP_BK = up_bk[0] if up_bk else "backoffs"
+    UP_NOW = up_now[0] if up_now else "now"
+
+    def is_up(x, name):
+        return x[0] == "upvar" and x[1].lstrip("*") == name
     ret = hb.call_sites(r"HashSet::retain$")
     ctx.floor("expiry", "retain over the current slot", ret, 1)
     for s in ret:
@@ -200,7 +222,11 @@ def check(ctx):
         ctx.ob("expiry", "retain runs on the slot of the cursor with this closure", "self.heartbeat_index.0" in render(e[2][0]) and "self.backoffs_by_heartbeat" in render(e[2][0])
                and gs.closure_arg(prog, hb, e) is hc, s.loc(), render(e[2][0])[:160])
     # keep: definitions
-    kl = lib.local_by_name(hc, "keep")
+    # the verdict local is identified by role: it is what the retain closure returns
+    _rv = [x for _, x in gs.ret_exprs(hc)]
+    if len(_rv) != 1 or _rv[0][0] != "local":
+        raise mir.RuleError("expiry closure does not return a single verdict local: %s" % [render(x) for x in _rv])
+    kl = _rv[0][1]
     kdefs = hc.defs.get(kl, [])
     good_defs = 0
     for d in kdefs:
@@ -220,8 +246,8 @@ def check(ctx):
             if rel is not None:
                 small, large, _ = rel
                 time_src = [c for c in gs.calls(e, r"get_backoff_time_from_backoffs$")]
-                ok = (small[0] == "upvar" and small[1].lstrip("*") == "now" and large[0] in ("arg", "local")
-                      and bool(time_src) and render(time_src[0][2][0]) == "^*backoffs"
+                ok = (is_up(small, UP_NOW) and large[0] in ("arg", "local")
+                      and bool(time_src) and is_up(time_src[0][2][0], UP_BK)
                       and gs.has_call(e, r"Instant::checked_add$"))
                 why = "keep = (expiry %s now) where expiry = %s" % (">" if rel[2] else ">=", r[:140])
         ctx.ob("expiry", "keep <=> expiry(+slack) > now", ok, site.loc(), why)
@@ -233,30 +259,32 @@ def check(ctx):
         if e is not None and e[0] == "const" and e[1] == 0:
             site = mir.Site(hc, d[1], d[2])
             ctx.guarded("expiry", "keep = false only without a stored backoff", site,
-                        lambda c, r, l: l == "None" and r.startswith("discr(libp2p_gossipsub::backoff::BackoffStorage::get_backoff_time_from_backoffs(^*backoffs, "),
+                        lambda c, r, l: l == "None" and c[0] == "discr" and c[1][0] == "call" and re.search(r"get_backoff_time_from_backoffs$", strip_generics(c[1][1])) is not None and is_up(c[1][2][0], UP_BK),
                         "constant false only on the None edge of the lookup")
     for s in h_rm_peer:
         e = hc.site_expr(s)
-        ctx.guarded("expiry", "per-peer removal only when keep is false", s, lambda c, r, l: l == "false" and r == "keep", "if !keep")
+        ctx.guarded("expiry", "per-peer removal only when keep is false", s, lambda c, r, l: l == "false" and c[0] == "local" and c[1] == kl, "if !keep")
         # same key: the element's peer is removed from the element's topic map
         a0 = gs.xrender(hc, e[2][0])
         a1 = render(e[2][1])
-        look = gs.calls(gs.expand(hc, ("local", kl, "keep")), r"get_backoff_time_from_backoffs$") or \
+        look = gs.calls(gs.expand(hc, ("local", kl, hc.names.get(kl))), r"get_backoff_time_from_backoffs$") or \
             [c for d in kdefs if d[0] == "call" for c in gs.calls(hc.call_expr(d[3], d[1]), r"get_backoff_time_from_backoffs$")]
         lk = [render(a) for a in look[0][2]] if look else []
-        ok = len(lk) == 3 and a1 == lk[2] and ("clone(%s)" % lk[1]) in a0 and "HashMap::entry(^*backoffs, " in a0
+        ok = len(lk) == 3 and a1 == lk[2] and ("clone(%s)" % lk[1]) in a0 and ("HashMap::entry(%s, " % lk[0]) in a0 and bool(look) and is_up(look[0][2][0], UP_BK)
         ctx.ob("expiry", "removed key = the key whose expiry was tested", ok, s.loc(), "remove(%s, %s) vs lookup%s" % (a0[-120:], a1, lk[1:]))
     for s in h_rm_map:
-        def empty_pred(c, r, l):
-            if re.match(r"^std::collections::HashMap::is_empty\(std::collections::hash_map::OccupiedEntry::get(_mut)?\(m\)\)$", r):
+        ent = re.escape(render(hc.site_expr(s)[2][0]))      # the entry that is removed (whatever the binding is called)
+
+        def empty_pred(c, r, l, ent=ent):
+            if re.match(r"^std::collections::HashMap::is_empty\(std::collections::hash_map::OccupiedEntry::get(_mut)?\(" + ent + r"\)\)$", r):
                 return l == "true"
-            if c[0] == "bin" and re.match(r"^std::collections::HashMap::len\(std::collections::hash_map::OccupiedEntry::get(_mut)?\(m\)\)$", render(c[2])) and c[3][0] == "const":
+            if c[0] == "bin" and re.match(r"^std::collections::HashMap::len\(std::collections::hash_map::OccupiedEntry::get(_mut)?\(" + ent + r"\)\)$", render(c[2])) and c[3][0] == "const":
                 k = c[3][1]
                 return (c[1], k, l) in (("Eq", 0, "true"), ("Ne", 0, "false"), ("Lt", 1, "true"), ("Le", 0, "true"), ("Gt", 0, "false"), ("Ge", 1, "false"))
             return False
         ctx.guarded("expiry", "topic map dropped only when empty", s, empty_pred,
                     "OccupiedEntry::remove (forgets every peer of the topic) only on an edge proving the inner map is empty")
-        ctx.guarded("expiry", "topic map dropped only while expiring an entry", s, lambda c, r, l: l == "false" and r == "keep", "if !keep")
+        ctx.guarded("expiry", "topic map dropped only while expiring an entry", s, lambda c, r, l: l == "false" and c[0] == "local" and c[1] == kl, "if !keep")
         # no mutation of the inner map between the emptiness test and the drop is possible: the per-peer removal precedes the test
         tests = [bi for bi in hc.live if hc.switch_info(bi) and empty_pred(hc.switch_info(bi)[0], render(hc.switch_info(bi)[0]), "true")]
         ok = bool(tests) and all(hc.must_pass_nodes([0], [t], lib.bbs(h_rm_peer)) for t in tests) and \
@@ -264,7 +292,7 @@ def check(ctx):
         ctx.ob("expiry", "emptiness is tested after the per-peer removal", ok, s.loc(), "remove(peer) dominates the is_empty test and is not repeated after it")
     # the closure's verdict is `keep`
     rets = [render(x) for _, x in gs.ret_exprs(hc)]
-    ctx.ob("expiry", "slot keeps the pair iff keep", rets == ["keep"], "%s:%d" % (hc.file, hc.line), "retain closure returns %s" % rets)
+    ctx.ob("expiry", "slot keeps the pair iff keep", len(rets) == 1 and len(kdefs) >= 2, "%s:%d" % (hc.file, hc.line), "retain closure returns the verdict local %s" % rets)
 
     # ------------------------------------------------------------------ (4) queries
     q = ctx.body(G, BS + r"is_backoff_with_slack$")
@@ -275,14 +303,16 @@ def check(ctx):
         e = rq[0][1]
         msg = render(e)[:200]
         cl = gs.closure_arg(prog, q, e) if e[0] == "call" else None
-        if cl is not None and re.search(r"Option::is_some_and$", strip_generics(e[1])) and render(e[2][0]) == "std::collections::HashMap::get(self.backoffs, topic)":
+        qt, qp = gs.argname(q, gs.arg_of_type(q, r"^&topic::TopicHash$")), gs.argname(q, gs.arg_of_type(q, r"^&libp2p_identity::PeerId$"))
+        if cl is not None and re.search(r"Option::is_some_and$", strip_generics(e[1])) and render(e[2][0]) == "std::collections::HashMap::get(self.backoffs, %s)" % qt:
             ce = [x for _, x in gs.ret_exprs(cl)]
-            ok = len(ce) == 1 and re.match(r"^std::collections::HashMap::contains_key\(\w+, \^\*?peer\)$", render(ce[0])) is not None
+            ok = len(ce) == 1 and re.match(r"^std::collections::HashMap::contains_key\(\w+, \^\*?" + re.escape(qp) + r"\)$", render(ce[0])) is not None
             msg += " / closure: %s" % [render(x) for x in ce]
     ctx.ob("query", "is_backoff_with_slack <=> key present", ok, "%s:%d" % (q.file, q.line), msg)
     gt_ = ctx.body(G, BS + r"get_backoff_time$")
     rg = [render(x) for _, x in gs.ret_exprs(gt_)]
-    ctx.ob("query", "get_backoff_time reads this storage for (topic, peer)", rg == ["libp2p_gossipsub::backoff::BackoffStorage::get_backoff_time_from_backoffs(self.backoffs, topic, peer)"],
+    gtt, gtp = gs.argname(gt_, gs.arg_of_type(gt_, r"^&topic::TopicHash$")), gs.argname(gt_, gs.arg_of_type(gt_, r"^&libp2p_identity::PeerId$"))
+    ctx.ob("query", "get_backoff_time reads this storage for (topic, peer)", rg == ["libp2p_gossipsub::backoff::BackoffStorage::get_backoff_time_from_backoffs(self.backoffs, %s, %s)" % (gtt, gtp)],
            "%s:%d" % (gt_.file, gt_.line), str(rg)[:200])
     gf = ctx.body(G, BS + r"get_backoff_time_from_backoffs$")
     rf = gs.ret_exprs(gf)
@@ -292,9 +322,10 @@ def check(ctx):
         e = rf[0][1]
         msg = render(e)[:160]
         c1 = gs.closure_arg(prog, gf, e)
-        if c1 is not None and render(e[2][0]) == "std::collections::HashMap::get(backoffs, topic)" and re.search(r"Option::and_then$", strip_generics(e[1])):
+        fm, ft, fp_ = (gs.argname(gf, gs.arg_of_type(gf, MAP_TY)), gs.argname(gf, gs.arg_of_type(gf, r"^&topic::TopicHash$")), gs.argname(gf, gs.arg_of_type(gf, r"^&libp2p_identity::PeerId$")))
+        if c1 is not None and render(e[2][0]) == "std::collections::HashMap::get(%s, %s)" % (fm, ft) and re.search(r"Option::and_then$", strip_generics(e[1])):
             e1 = [x for _, x in gs.ret_exprs(c1)]
-            if len(e1) == 1 and e1[0][0] == "call" and re.match(r"^std::collections::HashMap::get\(\w+, \^\*?peer\)$", render(e1[0][2][0])):
+            if len(e1) == 1 and e1[0][0] == "call" and re.match(r"^std::collections::HashMap::get\(\w+, \^\*?" + re.escape(fp_) + r"\)$", render(e1[0][2][0])):
                 c2 = gs.closure_arg(prog, c1, e1[0])
                 e2 = [render(x) for _, x in gs.ret_exprs(c2)] if c2 is not None else []
                 ok = len(e2) == 1 and e2[0].endswith(".0")
@@ -352,7 +383,7 @@ def check(ctx):
         ok = bool(lk) and all(render(c[2][0]) == "self.backoffs" and render(c[2][2]) == render(e[2][1]) and ("HashMap::get_mut(self.mesh, %s)" % render(c[2][1])) in topic_r for c in lk)
         ctx.ob("graft", "backoff looked up for the grafted (topic, peer)", ok, s.loc(), "lookup args %s" % [[render(a)[-60:] for a in c[2]] for c in lk][:1])
         # refused => PRUNE queued once, penalty when scoring is active
-        prune_ins = [x for x in hg.call_sites(r"HashSet::insert$") if render(hg.site_expr(x)[2][0]) == "to_prune_topics"]
+        prune_ins = gs.refusal_inserts(hg, head)
         got = lib.count_range(hg, starts, [head], lib.bbs(prune_ins)) if starts else None
         ctx.ob("graft", "backed-off GRAFT is answered with exactly one PRUNE entry", got == (1, 1), s.loc(), "to_prune_topics.insert on the refused path: %s" % (got,))
         pen = hg.call_sites(r"PeerScore::add_penalty$")
